@@ -139,12 +139,25 @@ def translate(src: Path) -> dict:
     check_sources(src)
     rows = char_table()
     b = lambda x: 'true' if x else 'false'
+    def tree(lo, hi):
+        if lo >= hi:
+            return 'Leaf'
+        mid = (lo + hi) // 2
+        c, l, w, sp = rows[mid]
+        return f'(Node {tree(lo, mid)} {c} ({l}, {b(w)}, {b(sp)}) {tree(mid + 1, hi)})'
     out = ['(* GENERATED by translate/tr_chartable.py from the running interpreter (re, str) -- do not edit *)\n',
            'From Coq Require Import NArith List Bool.\nImport ListNotations.\nLocal Open Scope N_scope.\n\n',
-           'Definition table : list (N * (N * bool * bool)) := [\n']
-    out.append(';\n'.join(f'  ({c}, ({lo}, {b(w)}, {b(sp)}))' for c, lo, w, sp in rows))
-    out.append('\n].\n\n')
-    out.append('''Definition lookup (c : N) : option (N * (N * bool * bool)) := find (fun e => N.eqb (fst e) c) table.
+           '(* code point -> (lower, is_word, is_space), as a balanced search tree (lookup cost matters: the correspondence\n'
+           '   check evaluates the matcher on ~10^5 term/path pairs per run) *)\n',
+           'Inductive bst := Leaf | Node (l : bst) (k : N) (v : N * bool * bool) (r : bst).\n',
+           'Fixpoint bst_find (t : bst) (c : N) : option (N * (N * bool * bool)) :=\n'
+           '  match t with\n  | Leaf => None\n  | Node l k v r => match N.compare c k with Eq => Some (k, v) | Lt => bst_find l c | Gt => bst_find r c end\n  end.\n',
+           'Fixpoint bst_list (t : bst) : list (N * (N * bool * bool)) :=\n'
+           '  match t with Leaf => [] | Node l k v r => bst_list l ++ (k, v) :: bst_list r end.\n\n',
+           'Definition tree : bst :=\n  ', tree(0, len(rows)), '.\n\n',
+           'Definition table : list (N * (N * bool * bool)) := bst_list tree.\n',
+           'Definition lookup (c : N) : option (N * (N * bool * bool)) := bst_find tree c.\n']
+    out.append('''
 Definition lower (c : N) : N := match lookup c with Some (_, (l, _, _)) => l | None => c end.
 Definition is_word (c : N) : bool := match lookup c with Some (_, (_, w, _)) => w | None => false end.
 Definition is_space (c : N) : bool := match lookup c with Some (_, (_, _, s)) => s | None => false end.
